@@ -113,10 +113,10 @@ func (x *X) write(sb *strings.Builder, d int) {
 var printDepth = 6
 
 type xbuilder struct {
-	c       *Ctx
-	closure map[*ssa.Function]*ssa.MakeClosure
-	memo    map[ssa.Value]*X
-	env     map[ssa.Value]*X // parameter bindings while expanding a trivial function in place
+	c        *Ctx
+	closure  map[*ssa.Function]*ssa.MakeClosure
+	memo     map[ssa.Value]*X
+	env      map[ssa.Value]*X // parameter bindings while expanding a trivial function in place
 	inlDepth int
 }
 
@@ -619,15 +619,15 @@ func Same(a, b *X) bool {
 // pureCallee lists accessor functions whose result depends only on the
 // arguments (confirmed by reading their source).
 var pureCallee = map[string]bool{
-	"(github.com/ipfs/go-cid.Cid).Hash":                         true,
-	"(github.com/ipfs/go-cid.Cid).Prefix":                       true,
-	"(github.com/ipfs/go-cid.Cid).Bytes":                        true,
-	"(github.com/ipfs/go-cid.Cid).String":                       true,
-	"(github.com/libp2p/go-libp2p/core/peer.ID).String":         true,
-	"len":                                                       true,
-	"(time.Time).IsZero":                                        true,
-	"(github.com/ipld/go-ipld-prime/linking/cid.Link).String":   true,
-	"(github.com/multiformats/go-multicodec.Code).String":       true,
+	"(github.com/ipfs/go-cid.Cid).Hash":                 true,
+	"(github.com/ipfs/go-cid.Cid).Prefix":               true,
+	"(github.com/ipfs/go-cid.Cid).Bytes":                true,
+	"(github.com/ipfs/go-cid.Cid).String":               true,
+	"(github.com/libp2p/go-libp2p/core/peer.ID).String": true,
+	"len":                true,
+	"(time.Time).IsZero": true,
+	"(github.com/ipld/go-ipld-prime/linking/cid.Link).String": true,
+	"(github.com/multiformats/go-multicodec.Code).String":     true,
 }
 
 // Contains reports whether pred holds for x or any sub-expression.
